@@ -134,9 +134,20 @@ def select_quick(lattice, seed, total, stacks):
             need.discard((a, r[a], b, r[b]))
     if need:
         raise tlc.MachineryError(f"covering array incomplete: {len(need)} pairs uncovered")
+    # every point at most two settings away from the all-default request to a good server (index 0:
+    # first level of every factor) -- the single- and double-deviation scenarios
+    ball = set()
+    n = len(radices)
+    for a in range(n):
+        for x in doms[a]:
+            ball.add(encode([x if f == a else 0 for f in range(n)], radices))
+            for b in range(a + 1, n):
+                for y in doms[b]:
+                    ball.add(encode([x if f == a else y if f == b else 0 for f in range(n)], radices))
+    sel |= ball
     while len(sel) < total:
         sel.add(encode([rng.choice(d) for d in doms], radices))
-    return sorted(sel), npair
+    return sorted(sel), npair, len(ball)
 
 
 # ------------------------------------------------------------------------------------ shard task
@@ -187,7 +198,14 @@ def _execute(args):
         if pt["p"]["backend"] != backend:
             raise tlc.MachineryError(f"worker for backend {backend} received a point for {pt['p']['backend']}")
         v = variant_of(pt["idx"], seed)
-        o = c07drv.run_point(pt["p"], v)
+        for _attempt in range(3):
+            o = c07drv.run_point(pt["p"], v)
+            # no scenario of the lattice can legitimately time out (the party always answers or closes):
+            # a client-side timeout is an overloaded machine; retry, then report it as a harness stall
+            if o["joined"] and not any("timeout" in e.lower() for e in o["exc"]):
+                break
+        else:
+            o["joined"] = False
         res.append({"idx": pt["idx"], "raw": _abstract(o), "variant": v, "exc_msg": o.get("exc_msg", "")})
     if c07drv._AUTH is not None:
         c07drv._AUTH.close()
@@ -290,8 +308,8 @@ def stage1(rep, routes, hosts, live=False, defects=False):
     if routes == "DirectRoute":
         need.remove("Tunnel")
     classes = list(CLASSES)
-    if hosts == "IpHostOnly" and routes == "DirectRoute":
-        pass
+    if defects and routes == "PinnedRoute":
+        classes.remove("SentUnverifiedWarned")     # exactly what the recorded defect takes away on this route
     missing = [a for a in need + ["Report" + c for c in classes] if cov.get(a, 0) == 0]
     if missing and not r.violated:
         raise tlc.MachineryError(f"vacuous stage 1 ({routes}/{hosts}): actions/outcome classes never reached: {missing}")
@@ -337,8 +355,8 @@ def run(rep):
     stacks = factors[-1]["levels"]
     base = lattice["size"] // len(stacks)
     if quick:
-        sel, npair = select_quick(lattice, rep.seed, QUICK_POINTS, range(len(stacks)))
-        rep.extra["quick_selection"] = {"pairwise_rows": npair, "total": len(sel)}
+        sel, npair, nball = select_quick(lattice, rep.seed, QUICK_POINTS, range(len(stacks)))
+        rep.extra["quick_selection"] = {"pairwise_rows": npair, "within_two_of_default": nball, "total": len(sel)}
         pts = emit_points({"mode": "sel", "sel": sel})                 # one JVM: TLC emits the chosen points
         if len(pts) != len(sel):
             raise tlc.MachineryError(f"{len(sel)} indices selected, TLC emitted {len(pts)} points")
